@@ -244,7 +244,7 @@ def random_run(rnd, allow_p=True):
     sel = None
     if allow_p and rnd.random() < 0.3:
         sel = rnd.choice(SELECTIONS)        # without -l the option is accepted and ignored
-    return make_run(l, b, m, rnd.random() < 0.3, rnd.choice([None, None, None, 0, 2, 5, 30]),
+    return make_run(l, b, m, rnd.random() < 0.3, rnd.choice([None, None, None, 0, 2, 5, 30, -1, -2, 100000]),
                     rnd.choice(['rel', 'rel', 'sub', 'abs']), extras, rnd.choice([[], [], ['a'], ['a', '--flag', 'x y']]),
                     outcome, int(rnd.random() < 0.3), int(rnd.random() < 0.3), int(explicit),
                     imp=int(rnd.random() < 0.6), sel=sel)
@@ -347,6 +347,19 @@ def gen_cases(tier, rnd):
         rs.insert(rnd.randrange(len(rs) + 1), make_run(l, False, rnd.random() < 0.3, False, None, 'rel', [], [], rnd.choice(['ret', 'exit', 'exc']),
                                                         0, 0, 0, special=rnd.choice(SPECIALS if l else SPECIALS[:3])))
         cases.append(dict(kind='special-program', init=init0, runs=rs))
+    # 1g. -i values as data: negative (argparse takes `-i -2` as the value), zero, 1, large, in every mode x outcome, alone and
+    #     followed by a second run; a fractional value is rejected by argparse before anything is touched
+    for iv in (-2, -1, 0, 1, 7, 100000):
+        for l, b in ((True, False), (False, True), (False, False)):
+            for outcome in ('ret', 'exit', 'exc'):
+                r = make_run(l, b, rnd.random() < 0.3, False, iv, 'rel', [], ['a'], outcome, 0, 0, 0)
+                cases.append(dict(kind='interval-values', init=init0, runs=[r]))
+        cases.append(dict(kind='interval-values', init=init0,
+                          runs=[make_run(True, False, False, False, iv, 'rel', [], [], 'ret', 0, 0, 0),
+                                make_run(False, True, False, False, -iv, 'sub', [], [], 'exc', 0, 0, 1)]))
+    for l, b in ((True, False), (False, False)):
+        r = make_run(l, b, False, False, None, 'rel', ['-i', '0.5'], ['a'], 'ret', 0, 0, 0)
+        cases.append(dict(kind='rejected-options', init=init0, runs=[r]))
     # 2. program behaviours and irrelevant options, single run
     for _ in range(1500 if thorough else 60):
         init = dict(init0, argv=rnd.choice([['driver'], ['driver', 'x', 'y'], ['']]),
@@ -544,7 +557,7 @@ def classify(case, o, bit):
         if last['l'] and last.get('regs', 0) > 0 and not o['before']['tracing'] and final['tracing'] and not final['threads']:
             return FINDINGS[8]
     if bit == 16:
-        n = sum(1 for r in case['runs'] if r['interval'] > 0)
+        n = sum(1 for r in case['runs'] if r['interval'] != 0)
         if n > 0 and final['threads'] - o['before']['threads'] == n and final['thread_kinds'] == ['Timer']:
             return FINDINGS[16]
     return None
@@ -616,6 +629,8 @@ COQ_UOP = dict(enable='UEnable', disable='UDisable', decorate='UDecorate')
 
 
 def q_case(case, o):
+    if case['kind'] == 'rejected-options':      # argparse exits before main touches anything: not a run of the model; the
+        return '(true, 0%Z)'                     # property is evaluated on the observations python-side
     init, b = case['init'], o['before']
     st = '(mk_state %s %s %s %s %s 0)' % (q_strs(b['argv']), core.coq_bool(init['argv_rebound']), q_strs(b['path']),
                                          core.coq_bool(init['path_rebound']), q_gp(init))
@@ -768,7 +783,7 @@ def run(tier, seed):
             for r, s in zip(c['runs'], o['seen']):
                 stats['runs'] += 1
                 stats['raised'] += s['raised'] is not None
-                stats['timed'] += r['interval'] > 0
+                stats['timed'] += r['interval'] != 0
                 stats['module'] += r['m']
                 stats['line'] += r['l']
                 stats['builtin'] += r['b']
@@ -784,7 +799,7 @@ def run(tier, seed):
             bit_hist[bits] = bit_hist.get(bits, 0) + 1
             res.spec_fails += fails_of(c, o, bits)
         n_raise = sum(1 for c, o in zip(cases, out) if c['kind'] != 'model-only' and any(s['raised'] for s in o['seen']))
-        n_timed = sum(1 for c in cases if c['kind'] != 'model-only' and any(r['interval'] > 0 for r in c['runs']))
+        n_timed = sum(1 for c in cases if c['kind'] != 'model-only' and any(r['interval'] != 0 for r in c['runs']))
         n_stale = sum(1 for c, o in zip(cases, out) for r, s in zip(c['runs'], o['seen'])
                       if s['raised'] and COQ_OUTCOME[r['outcome']] != 'Exc')
         res.coverage = dict(
